@@ -15,7 +15,14 @@ import (
 	"time"
 )
 
-var Root = "/verif"
+var Root = rootDir()
+
+func rootDir() string {
+	if r := os.Getenv("VERIF_ROOT"); r != "" {
+		return r
+	}
+	return "/verif"
+}
 
 type Evidence struct {
 	PropertyID  string         `json:"property_id"`
